@@ -16,7 +16,10 @@ CONSTANTS Reqs,          \* set of concurrent requests, e.g. {1, 2}
           LockExpires,   \* TRUE: the lock may expire while held (slow provider); only safety is asserted then
           MaxRetry,      \* bound on failed obtain attempts per request
           UseLock,       \* FALSE: named deviation "no lock" (what the cookie store does) - selftest
-          ReloadAfterLock \* FALSE: named deviation "no reload under the lock" - selftest
+          ReloadAfterLock, \* FALSE: named deviation "no reload under the lock" - selftest
+          SignOuts,      \* the requests (a subset of Reqs) that are SIGN-OUTS: they pass the same session loader (a stale session is refreshed
+                         \* under the lock first) and then delete the stored session instead of being served (C11 under concurrency)
+          SignOutRefreshes \* FALSE: named deviation "sign-out bypasses the loader's refresh path" (deletes without taking the lock) - selftest
 
 Vocab == [ atoms |-> [ none |-> "" ] ]
 Absent == 99
@@ -46,7 +49,8 @@ Load(r) ==
     /\ IF stored = Absent
        THEN /\ pc' = [pc EXCEPT ![r] = "done"] /\ result' = [result EXCEPT ![r] = "unauth"] /\ UNCHANGED sess
        ELSE /\ sess' = [sess EXCEPT ![r] = stored]
-            /\ pc' = [pc EXCEPT ![r] = IF Stale(stored) THEN (IF UseLock THEN "obtain" ELSE "refresh") ELSE "serve"]
+            /\ pc' = [pc EXCEPT ![r] = IF r \in SignOuts /\ ~SignOutRefreshes THEN "serve"
+                                       ELSE IF Stale(stored) THEN (IF UseLock THEN "obtain" ELSE "refresh") ELSE "serve"]
             /\ UNCHANGED result
     /\ Step(r, "load")
     /\ UNCHANGED <<stored, lock, validRT, calls, tries, refreshed, validated, servedGen>>
@@ -126,9 +130,18 @@ Clear(r) ==
 
 \* forwarding upstream touches no shared state: no schedule point of its own
 Serve(r) ==
-    /\ pc[r] = "serve"
+    /\ pc[r] = "serve" /\ r \notin SignOuts
     /\ pc' = [pc EXCEPT ![r] = "done"] /\ result' = [result EXCEPT ![r] = "served"] /\ servedGen' = [servedGen EXCEPT ![r] = sess[r]]
     /\ UNCHANGED <<stored, lock, validRT, calls, sess, tries, refreshed, validated, hist>>
+
+\* the sign-out handler: the session the loader produced is ended - the store entry is deleted (one store operation), the answer is the
+\* success redirect
+Delete(r) ==
+    /\ pc[r] = "serve" /\ r \in SignOuts
+    /\ stored' = Absent
+    /\ pc' = [pc EXCEPT ![r] = "done"] /\ result' = [result EXCEPT ![r] = "signedout"]
+    /\ Step(r, "delete")
+    /\ UNCHANGED <<lock, validRT, calls, sess, tries, refreshed, validated, servedGen>>
 
 LockExpire ==
     /\ LockExpires /\ lock # 0
@@ -137,7 +150,7 @@ LockExpire ==
     /\ UNCHANGED <<stored, validRT, calls, pc, sess, tries, refreshed, validated, result, servedGen>>
 
 Next == (\E r \in Reqs : Load(r) \/ ObtainOk(r) \/ ObtainFail(r) \/ Reload(r) \/ RefreshAtIdP(r) \/ RefreshRetry(r) \/ Save(r) \/ Validate(r)
-                          \/ Release(r) \/ Clear(r) \/ Serve(r))
+                          \/ Release(r) \/ Clear(r) \/ Serve(r) \/ Delete(r))
         \/ LockExpire
 
 \* ---- properties --------------------------------------------------------------------------------
@@ -147,12 +160,15 @@ NoStaleServe == \A r \in Reqs : result[r] = "served" => (~Stale(servedGen[r]) \/
 \* neither refresh nor validation succeeds: unauthenticated, entry cleared
 FailClosed == (Mode = "failinvalid" /\ StartStale) => (\A r \in Reqs : result[r] # "served") /\ (AllDone => stored = Absent)
 \* with a working provider everybody who is served carries what is stored (the new tokens)
-NewTokensVisible == (RefreshWorks /\ ~LockExpires) => \A r \in Reqs : result[r] = "served" => (servedGen[r] = stored /\ ~Stale(servedGen[r]))
+NewTokensVisible == (RefreshWorks /\ ~LockExpires /\ SignOuts = {}) => \A r \in Reqs : result[r] = "served" => (servedGen[r] = stored /\ ~Stale(servedGen[r]))
 \* exactly one refresh at the provider, everybody served (the property's proviso: lock does not expire)
 OneRefresh == (AllDone /\ StartStale /\ RefreshWorks /\ ~LockExpires) => calls = 1
-AllServed  == (AllDone /\ RefreshWorks /\ ~LockExpires) => \A r \in Reqs : result[r] = "served"
+AllServed  == (AllDone /\ RefreshWorks /\ ~LockExpires /\ SignOuts = {}) => \A r \in Reqs : result[r] = "served"
+\* C11 under concurrency: once a sign-out has been answered with success and everything in flight has finished, the stored session is
+\* gone - a refresh that was in flight in another request must not bring it back
+SignedOutStays == (AllDone /\ ~LockExpires /\ \E r \in SignOuts : result[r] = "signedout") => stored = Absent
 
-CaseRec == [fam |-> "sched", cfg |-> [mode |-> Mode, stale |-> StartStale, lockExpires |-> LockExpires, n |-> Cardinality(Reqs)],
+CaseRec == [fam |-> "sched", cfg |-> [mode |-> Mode, stale |-> StartStale, lockExpires |-> LockExpires, n |-> Cardinality(Reqs), signouts |-> SignOuts],
             in |-> [mode |-> Mode, n |-> Cardinality(Reqs)], steps |-> hist,
             impl |-> [calls |-> calls, stored |-> stored, results |-> [r \in Reqs |-> [result |-> result[r], gen |-> servedGen[r]]]]]
 EmitVocab == JsonSerialize("vocab.json", Vocab)
